@@ -163,6 +163,9 @@ def run(rep):
             if e['args'] == [('f', ('tf', g, 1), 'ty')] and e['cond'] == ('true',):
                 ok_seed = True
     rep.check(ok_seed, 'C08.closure-seed', f'seed:{q}', where, 'the closure is not seeded with the type of every module.global_variables element (unfiltered)', ok_detail='for g in module.global_variables: closure(g.ty)')
+    # the section reaches the assembled output unconditionally (shared rule, lib/sections.py)
+    from sections import check_wiring
+    check_wiring(rep, 'C08.section-wiring', ['derive ( #('], 'struct-section')
 
 
 TABLE_A = {(False, False): False, (True, False): True, (False, True): False, (True, True): True}
